@@ -46,15 +46,15 @@ for _p in ["C%02d" % i for i in range(1, 21)]:
     if _p not in PROPS and _p not in NOT_APPLICABLE:
         NOT_APPLICABLE[_p] = "check under construction (see DESIGN.md section 4); not claimed until its obligations run"
 
-P("C05", "model_checking", kani={"timeout": "900s"},
+P("C05", "model_checking", native=True, kani={"timeout": "900s"},
   bounded="programs: depth profiles n<=3 (quick: d<=2 plus selected d=3; thorough: d<=3 plus n=4 samples), Option/Result sync and Result async; every (branch, step) failure flag and payload symbolic",
   unbounded="the transposer that turns the per-branch results into one Option/Result is r0.and_then(|r0| r1.and_then(|r1| .. rn.map(|rn| (all values)))) for ANY number of branches (generate_results_transposer, R13 desugaring of iter().rev().fold()): branch k is examined before every later one and the tuple is reached only when all succeeded",
   not_decided="spawn kinds (threads / tokio tasks): not executable by Kani; the per-step abort code of join_steps is decided by the bounded programs only")
 
-P("C06", "model_checking", kani={"timeout": "900s"},
+P("C06", "model_checking", native=True, kani={"timeout": "900s"},
   bounded="same programs as C05; trace contract: exact event sequence of the staged reference (sync), no event of a step after the failing one (async)",
   not_decided="spawn kinds (threads / tokio tasks)")
-P("C04", "model_checking", kani={"timeout": "900s"},
+P("C04", "model_checking", native=True, kani={"timeout": "900s"},
   bounded="depth profiles n<=3 (+n=4 samples), d<=3; join!/try_join!/join_async!/try_join_async!, with then/map/and_then handlers and let patterns; values symbolic",
   unbounded="the three index functions and the step destructuring: active_step_branch_count == #{i: depth_i > step} (R13 desugaring of iter/filter/count), step_results.k is indexed over active branches only, extract_results_tuple names exactly the active branches in branch order (R13 desugaring of the lazy filter with its counting closure) and hands ALL result names to the handler in branch order",
   not_decided="spawn kinds; generate_step / join_steps (the assembly of the per-step tuples) are outside Verus and covered by the bounded programs only")
@@ -62,7 +62,7 @@ P("C04", "model_checking", kani={"timeout": "900s"},
 P("C09", "model_checking", kani={"timeout": "1200s"},
   bounded="join_async!/try_join_async!, profiles n<=3 d<=2 (thorough: d<=3, n=4 sample), one harness-controlled gate per (branch, step) with symbolic pending count <= 1: every readiness pattern incl. batches; polls <= 1 + sum_s max_i p_is",
   not_decided="tokio-task variant; unbounded liveness")
-P("C03", "model_checking", kani={"timeout": "1200s"},
+P("C03", "model_checking", native=True, kani={"timeout": "1200s"},
   bounded="sync: profiles n<=3 d<=3 with 7 operator kinds rotating over positions (incl. deferred error operators), exact staged trace; async: same gate programs as C09, monotone step numbers in the trace",
   not_decided="OS-thread interleavings and tokio task schedules (Kani has no thread support)")
 
@@ -73,10 +73,10 @@ P("C11", "proof", kani={"timeout": "600s", "compile_clause": True}, rac=["emit"]
   unbounded="which operators hoist (is_replaceable, incl. the provided method used by ErrExpr/InitialExpr, R14), operands exposed and restored in order (inner_exprs / replace_inner_exprs); separate_block_expr itself for its three instantiations (R13 desugaring of enumerate/map/fold into a while loop with an inductive invariant): ALL block operands of one action are defined, once, in operand order, each under the name of (branch, action, operand index), and the operator is handed back over the replaced operands; generate_def_and_step_streams appends them after the earlier definitions",
   bounded="placement of the definition stream relative to the steps: exact capture/callback trace for all hoisting operators rotating over positions, n<=3, d<=3, nested wrappers, both operands of fold/try_fold")
 
-P("C12", "model_checking", kani={"timeout": "600s", "compile_clause": True},
+P("C12", "model_checking", native=True, kani={"timeout": "600s", "compile_clause": True},
   bounded="n<=3, d<=3, subsets of named branches (quick: 6 masks per profile), every later step has a capture reading a name; 4 executable macro kinds",
   not_decided="spawn kinds")
-P("C13", "model_checking", kani={"timeout": "600s"}, rac=["reject"],
+P("C13", "model_checking", native=True, kani={"timeout": "600s"}, rac=["reject"],
   bounded="every legal (kind x handler) for the 4 executable kinds, n<=3, handler at end / between branches, failure flags symbolic; handler call count, argument order, wrapping, awaited value",
   not_decided="spawn kinds")
 P("C16", "model_checking", kani={"timeout": "600s"}, rac=["options", "futures_path"],
